@@ -1515,10 +1515,11 @@ class DNA(symbolic.Object):
       key = key.id
       return self._decision_by_id[key]
     else:
-      v = self.named_decisions.get(key, None)
-      if v is None:
-        v = self._decision_by_id[key]
-      return v
+      named_decisions = self.named_decisions
+      if key in named_decisions:
+        # NOTE: the decision of a named decision point that is inactive is None.
+        return named_decisions[key]
+      return self._decision_by_id[key]
 
   def get(
       self,
